@@ -451,6 +451,18 @@ func c06monitor(cw *caseWriter) func(tag string, in, obs []uint64) {
 					cw.monitor("C06", tag, "granted-without-durable-record", "event %d: record (%d,%d) for grant (%d,a%d)", i, next[sVTerm], next[sVCand], e.term, e.ad)
 				}
 			}
+			// (b') the candidate's own vote: counted (code 2) only once it is durably recorded as (term, self);
+			// it then is the one grant of that term
+			if e.kind == 6 && resp != nil && len(resp) == 5 && resp[4] == 2 && next != nil {
+				self := in[0]
+				if next[sVTerm] != resp[0] || next[sVCand] != self+1 {
+					cw.monitor("C06", tag, "self-vote-counted-without-durable-record", "event %d: electSelf counts its own vote for term %d, the durable record is (%d,%d)", i, resp[0], next[sVTerm], next[sVCand])
+				}
+				if c, ok := granted[resp[0]]; ok && c != self {
+					cw.monitor("C06", tag, "two-candidates-granted-in-one-term", "term %d: a%d and itself", resp[0], c)
+				}
+				granted[resp[0]] = self
+			}
 			// (c) vote cast: the durable record is "live" when its term equals the durable current
 			// term (only then can a request be compared with it: older terms are refused, newer
 			// ones bump the term first). A cast = the live record changes to a pair (t,c). It must
